@@ -117,3 +117,5 @@ func VerifC08() {
 	}
 	vp.Cover("end")
 }
+
+func parseApp(text string) (risc.Application, error) { return risc.Parse(text) }
